@@ -20,7 +20,228 @@ use std::{
 	time::{Duration, Instant},
 };
 
+static STARTED: std::sync::atomic::AtomicU64 = std::sync::atomic::AtomicU64::new(0);
+static ACKED: std::sync::atomic::AtomicU64 = std::sync::atomic::AtomicU64::new(0);
+
+fn progress() -> (u64, u64) {
+	(STARTED.load(Ordering::SeqCst), ACKED.load(Ordering::SeqCst))
+}
+
+/// `pdbv-conc --c12-image <dir> <seed> <variant> <started>`: open a power-loss image and name
+/// the prefix of T1..T<started> it holds. Prints `M <m>` or `FAIL <signature> :: <detail>`.
+pub fn image_child(a: &[String]) -> ! {
+	let dir = std::path::PathBuf::from(&a[0]);
+	let seed: u64 = a[1].parse().unwrap_or(0);
+	let variant: u64 = a[2].parse().unwrap_or(0);
+	let started: u64 = a[3].parse().unwrap_or(0);
+	pv::scratch::install_panic_hook();
+	let mut o = crate::c02::cfg_of(variant).options(&dir);
+	o.with_background_thread = false;
+	let db = match catch(|| Db::open(&o)) {
+		Ok(Ok(d)) => d,
+		Ok(Err(e)) => {
+			println!("FAIL failure=open_error :: {}", e);
+			std::process::exit(0)
+		},
+		Err(p) => {
+			println!("FAIL failure=open_panic;site={} :: {}", panic_site(&p), p);
+			std::process::exit(0)
+		},
+	};
+	let mut keys: Vec<crate::c02::Key> = vec![];
+	for idx in 0..160 {
+		keys.push((0, crate::c02::key_of(seed, variant, 0, idx)));
+	}
+	for idx in 0..60 {
+		keys.push((1, crate::c02::key_of(seed, variant, 1, idx)));
+	}
+	let read = catch(|| {
+		let mut observed: BTreeMap<crate::c02::Key, Option<Vec<u8>>> = BTreeMap::new();
+		for k in &keys {
+			observed.insert(k.clone(), db.get(k.0, &k.1).map_err(|e| format!("get: {}", e))?);
+		}
+		Ok::<_, String>(observed)
+	});
+	let observed = match read {
+		Ok(Ok(o)) => o,
+		Ok(Err(e)) => {
+			println!("FAIL failure=read_error :: {}", e);
+			std::process::exit(0)
+		},
+		Err(p) => {
+			println!("FAIL failure=read_panic;site={} :: {}", panic_site(&p), p);
+			std::process::exit(0)
+		},
+	};
+	let mut state: BTreeMap<crate::c02::Key, Option<Vec<u8>>> = keys.iter().map(|k| (k.clone(), None)).collect();
+	let mut differing = state.iter().filter(|(k, v)| observed.get(*k) != Some(*v)).count();
+	let mut best: Option<u64> = if differing == 0 { Some(0) } else { None };
+	for i in 1..=started {
+		for (k, v) in crate::c02::tx_of(seed, variant, i) {
+			let was = observed.get(&k) == state.get(&k);
+			state.insert(k.clone(), v);
+			let is = observed.get(&k) == state.get(&k);
+			if was && !is {
+				differing += 1;
+			} else if !was && is {
+				differing -= 1;
+			}
+		}
+		if differing == 0 {
+			best = Some(i);
+		}
+	}
+	match best {
+		Some(m) => println!("M {}", m),
+		None => {
+			let sample: Vec<String> = observed
+				.iter()
+				.filter(|(k, v)| state.get(*k) != Some(*v))
+				.take(3)
+				.map(|(k, v)| format!("{} = {}", pv::json::short_bytes(&k.1), v.as_ref().map_or("absent".to_string(), |v| if v.len() >= 8 { format!("{} bytes of transaction {}", v.len(), u64::from_le_bytes(v[..8].try_into().unwrap())) } else { format!("{} bytes", v.len()) })))
+				.collect();
+			println!("FAIL failure=non_prefix_state :: the recovered state is no prefix of T1..T{}; e.g. {}", started, sample.join(", "));
+		},
+	}
+	drop(db);
+	std::process::exit(0)
+}
+
+/// Power-loss images cut from a durable shadow kept next to LIVE workers (see `shadow.rs`).
+fn images_case(ctx: &Ctx, rep: &mut Report, case_seed: u64, variant: u64, desc: &str) {
+	let mut rng = Rng::new(case_seed ^ 0x1A6E);
+	let work = Scratch::new("c12i");
+	let dbdir = work.path.join("db");
+	let opts = crate::c02::cfg_of(variant).options(&dbdir);
+	let replay = J::obj().set("case", J::s(desc.to_string())).set("case_seed", J::i(case_seed)).set("variant", J::i(variant));
+	STARTED.store(0, Ordering::SeqCst);
+	ACKED.store(0, Ordering::SeqCst);
+	let db = Arc::new(Db::open_or_create(&opts).expect("open_or_create"));
+	inject::start_trace(&dbdir, if variant % 3 == 0 { 0 } else { rng.range(200, 2000) });
+	crate::shadow::start(&dbdir, &work.path, case_seed, 24, progress);
+	let stop = Arc::new(AtomicBool::new(false));
+	let client = {
+		let db = db.clone();
+		let stop = stop.clone();
+		let mut r = rng.derive(5);
+		std::thread::spawn(move || {
+			let mut i = 0u64;
+			while !stop.load(Ordering::Relaxed) {
+				i += 1;
+				let tx = crate::c02::tx_of(case_seed, variant, i);
+				STARTED.store(i, Ordering::SeqCst);
+				if db.commit_changes(crate::c02::to_ops(&tx)).is_err() {
+					break
+				}
+				ACKED.store(i, Ordering::SeqCst);
+				if r.chance(1, 3) {
+					std::thread::sleep(Duration::from_micros(r.range(50, 3000)));
+				}
+			}
+			i
+		})
+	};
+	let run = Duration::from_millis(ctx.tier.pick(rng.range(1200, 2200), rng.range(2500, 5000)));
+	let t0 = Instant::now();
+	while t0.elapsed() < run {
+		std::thread::sleep(Duration::from_millis(rng.range(60, 250)));
+		inject::quiet(|| crate::shadow::cut_now("at a random moment"));
+		ctx.progress();
+	}
+	stop.store(true, Ordering::SeqCst);
+	let issued = client.join().expect("client");
+	rep.count("image_history_commits", issued);
+	let db = Arc::try_unwrap(db).ok().expect("handle still shared");
+	pv::dbutil::wait_idle(&db, Duration::from_secs(30));
+	ctx.mark(&format!("{} :: dropping the handle", desc));
+	ctx.progress();
+	drop(db);
+	let violations = inject::stop_trace();
+	let sh = crate::shadow::stop();
+	rep.count("r1_checks", inject::R1_CHECKS.load(Ordering::SeqCst));
+	rep.count("r4_checks", inject::R4_CHECKS.load(Ordering::SeqCst));
+	rep.count("r4_files_required", inject::R4_FILES.load(Ordering::SeqCst));
+	rep.count("grow_calls_held", inject::GROW_DELAYS.load(Ordering::SeqCst));
+	if let Some(v) = violations.first() {
+		let rule = if v.starts_with("R1") { "R1" } else { "R4" };
+		rep.violation(format!("scenario=C12;mode=threaded;failure=sync_order_rule;rule={}", rule), violations.iter().take(3).cloned().collect::<Vec<_>>().join(" | "), replay);
+		return
+	}
+	let sh = match sh {
+		Some(s) => s,
+		None => return,
+	};
+	for (k, v) in &sh.counters {
+		rep.count(&format!("shadow_{}", k), *v);
+	}
+	// ---- judge the images: each is opened in a child process (a crash of the child is a result)
+	let exe = std::env::current_exe().unwrap();
+	for img in &sh.images {
+		ctx.mark(&format!("{} :: image {} ({}, pages: {}, {} started)", desc, img.dir.display(), img.at, img.pages, img.started));
+		ctx.progress();
+		let out = std::process::Command::new(&exe)
+			.arg("--c12-image")
+			.arg(&img.dir)
+			.arg(case_seed.to_string())
+			.arg(variant.to_string())
+			.arg(img.started.to_string())
+			.stdin(std::process::Stdio::null())
+			.stderr(std::process::Stdio::null())
+			.output();
+		rep.evaluations += 1;
+		rep.count("power_loss_images_with_live_workers", 1);
+		let out = match out {
+			Ok(o) => o,
+			Err(e) => {
+				rep.inconclusive(format!("image child could not be run: {}", e));
+				continue
+			},
+		};
+		let text = String::from_utf8_lossy(&out.stdout).to_string();
+		let line = text.lines().find(|l| l.starts_with("M ") || l.starts_with("FAIL ")).unwrap_or("").to_string();
+		let img_replay = replay.clone().set("image_cut", J::s(img.at.clone())).set("image_pages", J::s(img.pages.to_string())).set("started", J::i(img.started));
+		if let Some(m) = line.strip_prefix("M ") {
+			let m: u64 = m.trim().parse().unwrap_or(0);
+			rep.count(if m >= img.acked { "images_recovered_everything_acknowledged" } else { "images_recovered_proper_prefix" }, 1);
+			rep.seen(format!("image|{}|pages_{}|{}", img.at.split(' ').take(2).collect::<Vec<_>>().join("_"), img.pages, if m >= img.acked { "all" } else { "prefix" }));
+		} else if let Some(f) = line.strip_prefix("FAIL ") {
+			let (sig, detail) = f.split_once(" :: ").unwrap_or((f, ""));
+			rep.violation(
+				format!("scenario=C12;mode=threaded_images;{}", sig),
+				format!("power-loss image cut {} (pages of unsynced changes that reached the disk: {}; {} transactions started, {} acknowledged): {}", img.at, img.pages, img.started, img.acked, detail),
+				img_replay,
+			);
+			return
+		} else {
+			rep.violation(
+				"scenario=C12;mode=threaded_images;failure=process_abort".to_string(),
+				format!("opening the power-loss image cut {} killed the process: {:?}", img.at, out.status),
+				img_replay,
+			);
+			return
+		}
+	}
+	rep.count("image_histories", 1);
+}
+
 pub fn run_case(ctx: &Ctx, rep: &mut Report, case_seed: u64, variant: u64) {
+	if variant % 2 == 1 {
+		let desc = format!("C12 threaded images case_seed={} variant={} cfg=[{}]", case_seed, variant, crate::c02::cfg_of(variant / 2).describe());
+		ctx.mark(&desc);
+		ctx.progress();
+		let r = catch(|| images_case(ctx, rep, case_seed, variant / 2, &desc));
+		let _ = inject::stop_trace();
+		let _ = crate::shadow::stop();
+		if let Err(p) = r {
+			rep.violation(
+				format!("scenario=C12;mode=threaded_images;failure=panic;site={}", panic_site(&p)),
+				format!("panic: {}", p),
+				J::obj().set("case", J::s(desc)).set("case_seed", J::i(case_seed)).set("variant", J::i(variant)),
+			);
+		}
+		return
+	}
+	let variant = variant / 2;
 	let always_flush = variant % 4 != 3;
 	let delay = variant % 3 != 0;
 	let desc = format!("C12 threaded case_seed={} variant={} always_flush={} grow_held={}", case_seed, variant, always_flush, delay);
